@@ -11,6 +11,8 @@ HUB_NOTE = ("Trusted base: TLC, Manager.tla/MCBase.tla, the vio virtual I/O laye
 CHECKS = {
     "C01": ("model_checking", "TLC model checking of Manager.tla (family Routing) + replay of TLC behaviours on the real manager + TLC trace validation",
             "TLC proves RoutingExact (declarative Eligible set vs operational forward) for every service order, writable subset and peer death within the Routing family; TLC-generated behaviours are executed on the real MessageManager over a deterministic virtual network and every recorded execution is validated step by step by TLC against Manager_Trace (per-connection multiset of data copies incl. payload identity and header pass-through).", "DESIGN.md 3/C01", HUB_NOTE),
+    "C04": ("translation_validation", "TLC enumerates programs of Defs.tla and computes the expected Signature from its own native type table and LayoutOps!Pad; the real compiler's Python / C / JavaScript / MATLAB outputs are loaded in their language and each extracted signature is compared with the specification's",
+            "Each back end is compared with an independent witness (the TLA+ signature), not only with its siblings: ids, hashes, constants (incl. constant expressions with division), module/host ids, field names and order, element class / width / signedness, array lengths, offsets, sizeof / _Alignof from gcc, ctypes sizes and type_size.", "DESIGN.md 3/C04", "Trusted base: TLC, Defs.tla/LayoutOps.tla (own native type table and padding function), vf/defs.py extractors (ctypes import in a subprocess, gcc-built probe, node, interpreter of the MATLAB assignment grammar), gcc 12 x86-64 ABI. Program family: the Defs.tla skeleton with every native name rotated through every role."),
     "C05": ("model_checking", "TLC model checking (Routing, Failures; TotalOrder under deferred notices) + trace validation with sequence-number and order clauses evaluated on every observed step",
             "SeqGapFree and TotalOrder are action properties of the spec checked by TLC over all interleavings in the bound (TLC also shows that publishing notices inline violates TotalOrder); on the real code every observed step is checked for gap-free msg_count per connection, whole frames, and identical relative order of common frames between any two receivers.", "DESIGN.md 3/C05", HUB_NOTE),
     "C06": ("model_checking", "TLC model checking of connect/identity clauses (family Identity, wrapping dynamic cursor) + exhaustive connect-decision matrix replayed on the real manager + trace validation",
@@ -35,6 +37,10 @@ CHECKS = {
             "Trusted base: TLC, ClientSys.tla/Manager.tla, vio, vf/clientdrv.py (the harness empties the client's socket after each probe). Bounded universe: 3 types + 1 outside + ALL."),
     "C03": ("model_checking", "TLC model checking of ProbeServed under hostile frame classes (family Hostile) and of simultaneous failures (Failures) + every hostile input class executed on the real manager with a liveness/probe oracle + trace validation of fault schedules",
             "On the spec TLC shows that no sequence of hostile frames (answered by close-or-ignore), cuts, resets and deaths reaches a state in which a fresh publisher/subscriber pair is not served or a bystander is closed. On the code each header-field boundary, type id class, declared length, control payload (incl. non-ASCII names, also with the manager's logging enabled), FIN/RST at byte offsets, random bytes, and several hundred connections is applied to the real manager; after each the manager thread must be alive, bystanders open and a fresh probe pair served.", "DESIGN.md 3/C03", HUB_NOTE),
+    "C15": ("translation_validation", "TLC enumerates the Defs.tla program family in its construct variants; each program is compiled by the real compiler and every output is LOADED in its language (python import + message registry, gcc, node with factory calls and element identity, MATLAB define-before-use)",
+            "Variants: alias of an imported struct, struct holding an imported message, message in message (container id below the member id), arrays of aliases, struct arrays of nested structs, diamond import with differently spelled paths; internal (non-ParserError) exceptions are violations.", "DESIGN.md 3/C15", "Trusted base: TLC, Defs.tla/LayoutOps.tla (own native type table and padding function), vf/defs.py extractors (ctypes import in a subprocess, gcc-built probe, node, interpreter of the MATLAB assignment grammar), gcc 12 x86-64 ABI. Program family: the Defs.tla skeleton with every native name rotated through every role."),
+    "C16": ("translation_validation", "Defs.tla programs (TLC) compiled twice - in process and in another process with another PYTHONHASHSEED / cwd / path spelling / output directory - and byte-compared; combined-YAML output re-parsed and compared with the original closure and with the specification's Signature; shipped core_defs.py compared with the module regenerated from the shipped core YAML through the same ctypes extractor",
+            "Byte identity of all five outputs, signature identity through the combined-YAML round trip, and currency of the shipped generated core definitions.", "DESIGN.md 3/C16", "Trusted base: TLC, Defs.tla/LayoutOps.tla (own native type table and padding function), vf/defs.py extractors (ctypes import in a subprocess, gcc-built probe, node, interpreter of the MATLAB assignment grammar), gcc 12 x86-64 ABI. Program family: the Defs.tla skeleton with every native name rotated through every role."),
     "C18": ("model_checking", "TLC model checking of TimingExact / TrafficPartition with history variables (family Stats, TrafficChunk=2) + interval matrix (0..300 distinct types, out-of-range ids, interval sequences) on the real manager under a virtual clock + trace validation",
             "TLC checks that every TIMING_MESSAGE equals the publishes since the previous report and that the sub-messages of one MESSAGE_TRAFFIC interval partition the types seen; on the real manager the virtual clock fires the timers, the monitor's frames are decoded independently (struct layout from core_defs.yaml) and compared with the specification's report per step (entries compared as multisets per interval).", "DESIGN.md 3/C18", HUB_NOTE),
 }
